@@ -82,6 +82,8 @@ M = [
  ("C10-define-clash-unchecked", "C10", "src/context.rs", "        self.define_names.borrow().contains(&name.to_lowercase())\n            // the location counter exists in pass 2 only, its name is taken from the start\n            || name.eq_ignore_ascii_case(\"pc\")", "        name.eq_ignore_ascii_case(\"pc\")", "a symbol may share its name with a #define again (fix d6b2fc4 undone by hand)"),
  ("C10-pc-not-reserved", "C10", "src/context.rs", "            // the location counter exists in pass 2 only, its name is taken from the start\n            || name.eq_ignore_ascii_case(\"pc\")\n", "", "a label or .equ may be named pc again (fix 7783163 undone by hand)"),
  ("C16-no-build-evaluation-budget", "C16", "src/expr.rs", "        if !constants.spend_evaluation_steps(steps.get()) {", "        if !constants.spend_evaluation_steps(0) {", "the evaluation steps of a build are no longer added up (fix f373a4d undone by hand)"),
+ ("C16-macro-line-precheck-off", "C16", "src/builder/pass0.rs", "                if raw_line.len().saturating_add(grown) > MAX_EXPANDED_LINE_LENGTH {\n                    // (body lines", "                if raw_line.len().saturating_add(grown) > usize::MAX / 2 {\n                    // (body lines", "the length of an expanded macro line is only looked at after the line was built (fix eb3a7c1 undone by hand)"),
+ ("C16-macro-line-limit-off", "C16", "src/builder/pass0.rs", "const MAX_EXPANDED_LINE_LENGTH: usize = 65536;", "const MAX_EXPANDED_LINE_LENGTH: usize = usize::MAX / 4;", "no limit on expanded macro lines (fixes c243025 and eb3a7c1 undone by hand)"),
  # ---- C17 independence
  ("C17-device-cache", "C17", "src/context.rs", "            device: Rc::new(RefCell::new(Some(Device::new(0)))),", "            device: Rc::new(RefCell::new(Some(LAST_DEVICE.with(|d| d.borrow().clone())))),", "context starts from a thread-local 'last device' cache"),
  ("C17-include-cache-by-name", "C17", "src/parser.rs", "    let include_paths = RefCell::new(include_paths);\n\n    let file_context", "    let cache_key = current_path.file_name().map(|n| n.to_string_lossy().to_string()).unwrap_or_default();\n    let source = INCLUDE_CACHE.with(|c| c.borrow_mut().entry(cache_key).or_insert(source).clone());\n    let include_paths = RefCell::new(include_paths);\n\n    let file_context", "included files cached per thread by file name"),
@@ -124,12 +126,10 @@ REVERTS = [
  ("R-device-two-operands", "C12", "e22c5cc", ".device A, B accepted"),
  ("R-org-before-switch", "C02", "9630515 63de58d", ".org directly followed by a segment switch is lost"),
  ("R-includepath-panic", "C16", "7410e14", "relative .includepath in a macro body panics"),
- ("R-macro-line-length", "C16", "c243025", "m @0@0 recursion doubles its argument until memory is gone"),
  ("R-includepath-own-directory", "C11", "f446de7 e251467", ".includepath of the file's own directory not handed on"),
  ("R-label-on-org-line", "C02", "d9c506b", "lab: .org 4 gives lab the place in front of the gap"),
  ("R-define-named-pc", "C10", "207b488", "#define pc accepted"),
  ("R-directive-second-operand", "C15", "b1eac26", ".if 1 nosuch assembles as .if 1"),
- ("R-macro-line-length-precheck", "C16", "eb3a7c1", "a macro line with thousands of parameters and a long argument is built before its length is checked"),
  ("R-empty-flash-not-written", "C18", "cb20c45", "no .hex for an empty flash image, stale file stays"),
  ("R-undef-two-names", "C10", "6571ebb", ".undef a, b ends a only"),
  ("R-def-register-name", "C10", "7d69954", ".def r5 = r20 accepted and ignored"),
